@@ -202,3 +202,25 @@ PROPS["C07"] = dict(
     assumptions=["merge order stated in the property: context < ancestors (outermost first) < own < call"],
     stages=[dict(name="assembly", run="^TestAssembly$", quick=25000, thorough=1000000, shards=16, timeout_thorough=3000)],
 )
+
+PROPS["C06"] = dict(
+    pkg="c06", level="exploration",
+    technique="property-based testing (rapid) with an SGR terminal-state simulator and a positional reference layout + independent tokenizer for the attribute region; production and testing binaries; native fuzzing",
+    claim=("Generated colored records (all severities incl. registered with/without tags+colours and unregistered, tag widths 1-5, minimal "
+           "widths 16-80, single/multi-line messages with/without trailing newline, every value kind incl. errors and groups, caller on/off) are "
+           "checked (a) for hygiene on the raw payload: SGR state reset at every line break and at the end (the go-test error dump may keep a "
+           "colour across its own lines), no control byte other than LF and no ESC outside SGR sequences unless the message itself contains "
+           "control bytes; (b) for layout on the stripped text: timestamp, optional name, [tag] of the configured width, first line padded to "
+           "the minimal width, attributes key=value in ascending order compared by meaning, caller tail, remaining lines indented by 4 spaces."),
+    note="Layout class: messages without '<', '>', '&' and control characters other than LF; values of kinds whose colored rendering tokenises unambiguously (no fallback kinds). Padding is exact for ASCII first lines, a lower bound (byte width) for non-ASCII ones. Tabs inside the go-test error dump are tolerated. The caller tail is only checked for its shape (C14 owns its content). One open known finding (translator-injected control bytes).",
+    rule=("rapid draws the scenario: 2/3 layout class, 1/3 hygiene class (any message without ESC incl. markup, every value kind). Non-trivial: a "
+          "multi-line message, or a level without colour entry, or a value with control bytes, or widths different from the defaults; distinct = "
+          "(class set, severity, tag width, minimal width bucket, number of rest lines)."),
+    assumptions=["ESC[0m / ESC[m reset the terminal state, every other ESC[...m sequence switches something on",
+                 "built-in level tags are the table documented in slog/level.go (copied into the harness)"],
+    stages=[
+        dict(name="production", run="^TestColoredRecords$", mode="prod", quick=25000, thorough=700000, shards=16, timeout_thorough=3000),
+        dict(name="testing", run="^TestColoredRecords$", quick=20000, thorough=700000, shards=16, timeout_thorough=3000),
+        dict(name="fuzz", fuzz="FuzzColored", fuzztime=180),
+    ],
+)
